@@ -12,6 +12,7 @@ CONSTANTS
   SortL = 3
   MaxReads = 2
 INVARIANT Emit
+INVARIANT OwnInputOnly
 INVARIANT SubBag
 INVARIANT Permutation
 INVARIANT TakeLaws
